@@ -238,4 +238,10 @@ func init() {
 	mutant("C05", "unfix-pac-direct-nil-url", "C05.R7", "http_proxy.go", "\tif proxyURL == nil {\n\t\t// DIRECT, there is no proxy to authenticate to.\n\t\treturn nil, nil\n\t}\n", "")
 	mutant("C12", "unfix-pac-direct-nil-url", "C12.R10", "http_proxy.go", "\tif proxyURL == nil {\n\t\t// DIRECT, there is no proxy to authenticate to.\n\t\treturn nil, nil\n\t}\n", "")
 	mutant("C12", "pac-direct-check-too-late", "C12.R10", "http_proxy.go", "\tif proxyURL == nil {\n\t\t// DIRECT, there is no proxy to authenticate to.\n\t\treturn nil, nil\n\t}\n", "").and("http_proxy.go", "\tif u := hp.creds.MatchURL(proxyURL); u != nil {\n\t\tproxyURL.User = u\n\t}\n\n\treturn proxyURL, nil\n}\n\nfunc (hp *HTTPProxy) middlewareStack()", "\tif proxyURL == nil {\n\t\treturn nil, nil\n\t}\n\tif u := hp.creds.MatchURL(proxyURL); u != nil {\n\t\tproxyURL.User = u\n\t}\n\n\treturn proxyURL, nil\n}\n\nfunc (hp *HTTPProxy) middlewareStack()")
+	// rules added after the third seeding round
+	mutant("C05", "redirect-per-attempt", "C05.R5", "net.go", "\tif d.rd != nil {\n\t\tnetwork, address = d.rd(network, address)\n\t}\n\tconn, err := d.dialContext(ctx, network, address)", "\tconn, err := d.dialContext(ctx, network, address)").and("net.go", "\t\tconn, err := dial(ctx, network, address)\n", "\t\tif d.rd != nil {\n\t\t\tnetwork, address = d.rd(network, address)\n\t\t}\n\t\tconn, err := dial(ctx, network, address)\n")
+	mutant("C05", "transport-keeps-environment-proxy", "C05.R8", "http_transport.go", "\t\tProxy:                 nil,\n", "\t\tProxy:                 http.ProxyFromEnvironment,\n")
+	mutant("C01", "site-credentials-replace-bearer", "C01.R8,C01.R4", "http_proxy.go", "\tif req.Header.Get(\"Authorization\") == \"\" {\n", "\tif _, _, ok := req.BasicAuth(); !ok {\n")
+	mutant("C01", "pac-strips-url-in-place", "C01.R9", "pac/pac.go", "\tif hostname == \"\" {\n\t\thostname = u.Hostname()\n\t}\n", "\tif hostname == \"\" {\n\t\thostname = u.Hostname()\n\t}\n\tu.Fragment = \"\"\n")
+	mutant("C02", "bodiless-reply-standard-phrase", "C02.R1", "internal/martian/proxy_conn.go", "\ttext := res.Status\n\tif text == \"\" {", "\ttext := \"\"\n\tif text == \"\" {")
 }
